@@ -65,8 +65,26 @@ def composites(fill):
     return uniq
 
 
+def named_builtin_trees():
+    s_ = T.I("title")
+    sub1 = ("Call", T.I("substring"), ("[]", ("NamedParam", T.I("fullstr"), s_), ("NamedParam", T.I("index"), one)))
+    sub2 = ("Call", T.I("substring"), ("[]", ("NamedParam", T.I("index"), one), ("NamedParam", T.I("fullstr"), s_)))
+    cat = ("Call", T.I("concat"), ("[]", ("NamedParam", T.I("a"), s_), ("NamedParam", T.I("b"), T.Str("x"))))
+    out = []
+    for c in (sub1, sub2, cat):
+        out += [("Compare", ("Eq",), ("Call", T.I("length"), ("[]", c)), one), ("Call", T.I("contains"), ("[]", c, T.Str("b"))), ("Compare", ("Eq",), c, T.Str("b")),
+                ("Call", T.I("contains"), ("[]", ("Call", T.I("tolower"), ("[]", c)), c)), ("Compare", ("Eq",), ("Call", T.I("concat"), ("[]", c, c)), T.Str("b"))]
+    return out
+
+
+# spellings that denote the same value but are different trees (equality is structural: the spelling is part of the node)
+SAME_VALUE_LEAVES = [("DateTime", "2020-02-29T10:30:00+00:00"), ("DateTime", "2020-02-29T10:30:00.000Z"), ("DateTime", "2020-02-29T10:30Z"), ("DateTime", "2020-02-29T11:30:00+01:00"),
+                     ("DateTime", "2019-02-31T00:00:00"), ("Duration", "PT24H"), ("Duration", "P1DT0S"), ("Integer", "01"), ("Integer", "+1"), ("Float", "1.50"), ("Float", "15e-1"),
+                     ("Boolean", "TRUE"), ("Boolean", "True"), ("GUID", "123E4567-E89B-12D3-A456-426614174000"), ("Time", "10:30:00.0"), ("Date", "2019-02-31"), ("String", "S")]
+
+
 def all_trees(full):
-    level1 = composites(LEAF_NODES)
+    level1 = composites(LEAF_NODES) + named_builtin_trees() + SAME_VALUE_LEAVES + [("Compare", ("Eq",), a, l) for l in SAME_VALUE_LEAVES]
     inner = composites(DEFAULT)
     level2 = composites(inner if full else inner[::3])
     seen, out = set(), []
@@ -175,8 +193,9 @@ def check_tree(acc, t):
     # (c) identity transformer
     out = visitor.NodeTransformer().visit(node)
     acc.count("executions")
-    if decode(out) != t or not (out == node):
-        acc.violation("identity-transformer:" + t[0], {"tree": t, "observed": decode(out), "check": "identity"})
+    same = node_eq(out, node)
+    if decode(out) != t or same is not True:
+        acc.violation("identity-transformer:" + t[0], {"tree": t, "observed": decode(out), "equal": same, "check": "identity"})
     if decode(node) != dump0:
         acc.violation("identity-transformer-mutated-input:" + t[0], {"tree": t, "check": "identity"})
     # (d) single-kind overrides
@@ -259,6 +278,14 @@ def check_late_handlers(acc, t):
             acc.violation("late-override-ignored:" + kind, {"tree": t, "check": "late-handler", "kind": kind, "expected": ref_replace(t, kind), "observed": decode(out)})
 
 
+def node_eq(a, b):
+    """structural equality of two trees; comparing trees never raises (an exception counts as "not equal" and is reported)"""
+    try:
+        return bool(a == b)
+    except Exception as e:  # noqa
+        return ("EXC", type(e).__name__)
+
+
 def _unit(trees):
     acc = Acc()
     for i, t in enumerate(trees):
@@ -277,12 +304,12 @@ def _pairs_unit(unit):
     for i in range(lo, hi):
         ni, ti = nodes[i], trees[i]
         for j in range(len(trees)):
-            eq = ni == nodes[j]
+            eq = node_eq(ni, nodes[j])
             acc.count("pairs")
             if eq != (ti == trees[j]):
                 acc.violation("equality:%s:%s" % (ti[0], trees[j][0]), {"left": ti, "right": trees[j], "eq": eq, "check": "equality"})
         # an equal-by-value copy must be equal and hash equally where hashable
-        if not (ni == encode(ti)):
+        if node_eq(ni, encode(ti)) is not True:
             acc.violation("equality-copy:%s" % ti[0], {"left": ti, "right": ti, "eq": False, "check": "equality"})
     acc.count("executions", (hi - lo) * len(trees))
     return acc
@@ -357,6 +384,9 @@ def run(ctx):
     ctx.layer("shared-tree-histories", trees=len(st), first_operations=len(shipped()), then_operations=len(_after_ops()), exhaustive=True,
               note="every shipped visitor, then every base-class operation, on one tree object; compared with the operation on a fresh copy")
     sub = trees if not ctx.quick else trees[::2]
+    if ctx.quick:       # the literal spellings (and their comparisons) are always part of the pairs
+        must = LEAF_NODES + SAME_VALUE_LEAVES + [("Compare", ("Eq",), a, l) for l in SAME_VALUE_LEAVES + LEAF_NODES[2:]]
+        sub = sub + [t for t in must if t not in set(sub)]
     _TREES = sub
     _NODES = [encode(t) for t in sub]
     step = max(1, len(sub) // 64 + 1)
